@@ -36,6 +36,9 @@ WORLDS = {
 BOUNDS = {"quick": [("x4", 3), ("x23", 3), ("x22", 3), ("x23F", 3)], "thorough": [("x4", 4), ("x23", 4), ("x22", 4), ("x23F", 4), ("x33", 3)]}
 
 
+FULL_PERMS = False  # thorough tier: every permutation of 4 terms (24); quick: rotations and reversals (8)
+
+
 def terminal(impl, order):
     L = None
     for n in order:
@@ -45,8 +48,8 @@ def terminal(impl, order):
     return L
 
 
-def perms(names):
-    if len(names) <= 4:
+def perms(names, full=3):
+    if len(names) <= full:
         return list(itertools.permutations(names))
     out = []
     for k in range(len(names)):
@@ -80,6 +83,13 @@ def oracle(impl, model, exempt=()):
     for n in names:
         own = model.owner(n)
         t = impl.t[n]
+        if own != n and n in exempt and own in impl.t and own == model.fam[n] and t.base is impl.t[own] and t.grad is not None:
+            # a view whose chain was cut by an earlier epoch but which MyGrad still presents as a view of `own`: its gradient may
+            # be unavailable, but if it reads something, that must be the matching view of own's gradient (never another tensor's)
+            gb = impl.t[own].grad
+            exp = None if gb is None else np.asarray(gb).reshape(-1)[model.tag[n]]
+            if exp is None or t.grad.shape != exp.shape or not np.array_equal(t.grad, exp) or (t.grad.size and not np.shares_memory(t.grad, gb)):
+                return ("cut_view_grad", n, "%s (base %s, chain cut in an earlier epoch) reads grad %s; %s.grad through the view chain is %s" % (n, own, explore.fmt(t.grad), own, None if exp is None else explore.fmt(exp)))
         if own == n or n in exempt:
             continue
         b = impl.t[own]
@@ -102,6 +112,17 @@ def oracle(impl, model, exempt=()):
                 continue
             if not np.shares_memory(impl.t[a].data, impl.t[b_].data) and np.shares_memory(ga, gb):
                 return ("unrelated_grads_share", a + "," + b_, "tensors do not share memory but their gradients do")
+    # a copy owns fresh memory: its gradient (if it carries one over) shares memory with no other tensor's gradient
+    for n in names:
+        if impl.t[n].grad is None or not impl.t[n].grad.size:
+            continue
+        c = impl.t[n].copy()
+        if c.grad is not None:
+            for o in names:
+                go = impl.t[o].grad
+                if go is not None and go.size and np.shares_memory(c.grad, go):
+                    return ("unrelated_grads_share", n, "the gradient of %s.copy() shares memory with %s.grad" % (n, o))
+        del c
     # a write through a view's gradient must be visible in the base's gradient
     for n in names:
         own = model.owner(n)
@@ -163,6 +184,8 @@ def run_one(init, h, seed, order, first=None, direct=None):
         eb = base.exc_brief(e)
         del e
         r.close()
+        if first is not None and eb[0] == "InvalidBackprop":
+            return None  # the second graph reaches a part cleared by the first epoch: the loud failure C09 asks for
         return (len(h), ("backward",), "exception", "", "%s: %s" % eb)
     f = oracle(r.impl, r.model, exempt)
     r.close()
@@ -176,7 +199,9 @@ def _modes(first):
 
 
 def run_task(task):
-    wname, prefix, depth, seed = task
+    global FULL_PERMS
+    wname, prefix, depth, seed = task[:4]
+    FULL_PERMS = len(task) > 4 and task[4] == "thorough"
     init = WORLDS[wname]
     acc = base.Acc()
     stack = [list(prefix)]
@@ -190,7 +215,7 @@ def run_task(task):
         acc.inc("transitions", 1 if h else 0)
         acc.states.add(m.digest())
         failed = False
-        orders = perms(names) if has_view else [tuple(names)]
+        orders = perms(names, 4 if FULL_PERMS else 3) if has_view else [tuple(names)]
         if has_view and len(names) >= 2:
             # terminals that leave one tensor out (a dangling view, or a view consumed only by a constant branch)
             for drop in names:
@@ -204,6 +229,9 @@ def run_task(task):
             # two graph epochs: back-propagate from one tensor first (clearing that graph), then use everything in a second graph
             for first in names:
                 jobs += [(tuple(names), first), (tuple(reversed(names)), first)]
+                if len(names) >= 3:
+                    # ... and second graphs that leave one tensor dangling
+                    jobs += [(tuple(n for n in names if n != drop), first) for drop in names]
         for order, first in jobs:
             f = run_one(init, h, seed, order, **_modes(first))
             acc.inc("evaluations")
@@ -228,21 +256,21 @@ def plan(tier, seed):
     tasks = []
     for wname, depth in BOUNDS[tier]:
         init = WORLDS[wname]
-        tasks.append((wname, [], 0, seed))
+        tasks.append((wname, [], 0, seed, tier))
         for p in explore.prefixes(init, CFG, 1, seed):
             if depth >= 4:
-                tasks.append((wname, p, 1, seed))
+                tasks.append((wname, p, 1, seed, tier))
                 m = Model(init, seed=seed)
                 m.apply(p[0])
                 for st in explore.enabled(m, CFG, "t1"):
-                    tasks.append((wname, p + [st], depth, seed))
+                    tasks.append((wname, p + [st], depth, seed, tier))
             else:
-                tasks.append((wname, p, depth, seed))
+                tasks.append((wname, p, depth, seed, tier))
     return dict(
         tasks=tasks,
         run=run_task,
         rule="all histories of view / non-view statements up to the depth bound from each base (4 shapes, C and F order) x every permutation of "
-        "the terminal's terms (<= 4 live tensors; rotations and reversals beyond), x terminals leaving one tensor out, x two-epoch runs (first a backward from each "
+        "the terminal's terms (<= 3 live tensors in the quick tier, <= 4 in the thorough tier; rotations and reversals beyond), x terminals leaving one tensor out, x two-epoch runs (first a backward from each "
         "single tensor, then a terminal over everything, both term orders), x each tensor itself as terminal with a C-ordered / F-ordered / broadcast / scalar / default "
         "seed gradient; non-trivial = history in which >= 2 live tensors share memory",
         bounds={w: d for w, d in BOUNDS[tier]},
